@@ -62,16 +62,18 @@ type hs13fTok struct {
 }
 
 type hs13fDriver struct {
-	r       *labRun
-	evSeen  int
-	seals   map[string][]string // per side: names of the protected records sealed and not yet seen in a datagram
-	recmap  map[string]string   // "side/epoch/seq" -> fragment name
-	q       map[string][]hs13fTok
-	stale   map[string][]int
-	qmax    int
-	emitted map[string]int
-	unknown []string
-	clear   []string // C07: handshake messages other than ClientHello / ServerHello / HelloRetryRequest that left in a DTLSPlaintext record
+	r         *labRun
+	evSeen    int
+	seals     map[string][]string // per side: names of the protected records sealed and not yet seen in a datagram
+	recmap    map[string]string   // "side/epoch/seq" -> fragment name
+	q         map[string][]hs13fTok
+	stale     map[string][]int
+	qmax      int
+	emitted   map[string]int
+	unknown   []string
+	lastSeq   map[string]int64 // C09: highest record number sealed per side/epoch
+	numbering []string
+	clear     []string // C07: handshake messages other than ClientHello / ServerHello / HelloRetryRequest that left in a DTLSPlaintext record
 	// what the real client was handed (for the acknowledgement-soundness predicate)
 	clientGot map[string]bool
 	flightSz  int
@@ -150,6 +152,21 @@ func (h *hs13fDriver) absorb() []string {
 			head, _ := e["head"].(string)
 			ct, _ := e["ctype"].(int)
 			ep, _ := e["epoch"].(int)
+			// C09: per side and epoch the record numbers sealed strictly increase (hence no pair is used twice under one key)
+			if sq, ok := hs13fSeq(e["seq"]); ok {
+				if h.lastSeq == nil {
+					h.lastSeq = map[string]int64{}
+				}
+				k := fmt.Sprintf("%s/%d", side, ep)
+				last, seen := h.lastSeq[k]
+				if seen && sq <= last && len(h.numbering) < 4 {
+					h.numbering = append(h.numbering, fmt.Sprintf("%s sealed a record (content type %d) as (epoch %d, sequence number %d) after it had sealed (epoch %d, sequence number %d)",
+						side, ct, ep, sq, ep, last))
+				}
+				if !seen || sq > last {
+					h.lastSeq[k] = sq
+				}
+			}
 			name := fmt.Sprintf("ct%d", ct)
 			switch ct {
 			case 22:
@@ -264,6 +281,21 @@ func hsReturned(p *labPeer) bool {
 	default:
 		return false
 	}
+}
+
+func hs13fSeq(v any) (int64, bool) {
+	switch x := v.(type) {
+	case int:
+		return int64(x), true
+	case int64:
+		return x, true
+	case uint64:
+		return int64(x), true //nolint:gosec
+	case float64:
+		return int64(x), true
+	}
+
+	return 0, false
 }
 
 func hsFailed(p *labPeer) bool { return hsReturned(p) && p.hsErr != nil }
@@ -601,6 +633,9 @@ flush:
 	}
 	for _, c := range h.clear {
 		law("C07 cleartext: %s", c)
+	}
+	for _, c := range h.numbering {
+		law("C09 record numbers: %s", c)
 	}
 	if len(h.unknown) > 0 {
 		res.Diverge = append(res.Diverge, fmt.Sprintf("unclassified datagrams %v", h.unknown))
